@@ -2,7 +2,7 @@ import Rustic.Model.RoundTrip
 import Rustic.Gen.Constants
 import Driver.Util
 import Driver.C06
-/-! `c01 <esc|unesc|start|coalesce|e2e> …` — see harness/src/c01.rs. -/
+/-! `c01 <esc|unesc|start|coalesce|e2e|e2el> …` — see harness/src/c01.rs. -/
 namespace Driver.C01
 open Rustic.RoundTrip Driver
 
@@ -94,16 +94,52 @@ def chunkLens (cfg : List String) (bs : List UInt8) : Option (List Nat) := do
     pure (Driver.C06.collect (Rustic.Rabin.roll t) p st [])
   else none
 
-def entryObs (cfg : List String) (tok : String) : Option String :=
+/-- `gf=<n>`, `nr=<n>`, `as=<0|1>`: options between the configuration and the entries -/
+def isOpt (t : String) : Bool := t.contains '=' && !(t.contains ':')
+
+def optOk (t : String) : Bool :=
+  match t.splitOn "=" with
+  | [k, v] => (k = "gf" || k = "nr" || (k = "as" && (v = "0" || v = "1"))) && v.toNat?.isSome
+  | _ => false
+
+def fileObs (cfg : List String) (p k l s : String) : Option String := do
+  let len ← l.toNat?
+  let bs ← content k len (← s.toNat?)
+  let lens ← chunkLens cfg bs
+  pure s!"{p}:f:{len}:{if lens.isEmpty then "-" else ",".intercalate (lens.map toString)}"
+
+/-- the `F` entry a further name (`H`) refers to -/
+def findFile (ents : List String) (path : String) : Option (String × String × String) :=
+  ents.findSome? fun t =>
+    match t.splitOn ":" with
+    | "F" :: q :: k :: l :: s :: _ => if q = path then some (k, l, s) else none
+    | _ => none
+
+def entryObs (cfg : List String) (ents : List String) (tok : String) : Option String :=
   match tok.splitOn ":" with
-  | ["F", p, k, l, s, _mode, _mtime] => do
-    let len ← l.toNat?
-    let bs ← content k len (← s.toNat?)
-    let lens ← chunkLens cfg bs
-    pure s!"{p}:f:{len}:{if lens.isEmpty then "-" else ",".intercalate (lens.map toString)}"
+  | ["F", p, k, l, s, _mode, _mtime] => fileObs cfg p k l s
+  | ["F", p, k, l, s, _mode, _mtime, x] => do
+    let _ ← x.toNat?
+    fileObs cfg p k l s
+  | ["H", p, target] => do
+    let (k, l, s) ← findFile ents target
+    fileObs cfg p k l s
+  | ["T", p, _dir, _mode, _mtime] => some s!"{p}:t"
   | ["D", p, _, _] => some s!"{p}:d"
   | ["L", p, _, _] => some s!"{p}:l"
   | _ => none
+
+/-- `e2e` / `e2el`: per entry the kind and, for files, the chunk lengths the chunker model gives for the regenerated content -/
+def e2eObs (rest : List String) : String :=
+  if rest.length < 10 then "bad-op" else
+  let cfg := rest.take 8
+  let body := (rest.drop 8).dropLast
+  let opts := body.takeWhile isOpt
+  let ents := body.dropWhile isOpt
+  if !(opts.all optOk) || ents.isEmpty || rest.getLast?.bind String.toNat? = none then "bad-op" else
+  match ents.mapM (entryObs cfg ents) with
+  | none => "bad-op"
+  | some obs => "ok " ++ " ".intercalate obs
 
 def handle : List String → String
   | ["esc", name] =>
@@ -142,13 +178,8 @@ def handle : List String → String
     | some ls =>
       let gs := coalesceAll Rustic.Gen.C01_MAX_HOLESIZE Rustic.Gen.C01_LIMIT_PACK_READ ls
       "ok " ++ " ".intercalate (gs.map fun g => s!"{g.offset}:{g.length}:{g.blobs.length}")
-  | "e2e" :: rest =>
-    if rest.length < 10 then "bad-op" else
-    let cfg := rest.take 8
-    let ents := (rest.drop 8).dropLast
-    match ents.mapM (entryObs cfg) with
-    | none => "bad-op"
-    | some obs => "ok " ++ " ".intercalate obs
+  | "e2e" :: rest => e2eObs rest
+  | "e2el" :: rest => e2eObs rest
   | _ => "bad-op"
 
 end Driver.C01
